@@ -134,9 +134,16 @@ def generic_rules(body):
         cl = match_brace(m, op)
         inner = body[op + 1:cl]
         cm = re.match(r'^\s*\|\s*(\w+)\s*\|\s*\{(.*)\}\s*$', inner, re.S)
+        if not cm:
+            cm2 = re.match(r'^\s*\|\s*(\w+)\s*\|\s*([^{].*?)\s*$', inner, re.S)       # expression body
+            if cm2:
+                class _M:
+                    def __init__(s_, a, b): s_.a, s_.b = a, b
+                    def group(s_, i): return s_.a if i == 1 else s_.b
+                cm = _M(cm2.group(1), ' ' + cm2.group(2) + '; ')
         tail = re.match(r'\s*;', m[cl + 1:])
         if not cm or not tail:
-            raise LostAnchor('rule R2: for_each without a `|v| { .. }` closure statement')
+            raise LostAnchor('rule R2: for_each without a `|v| ..` closure statement')
         if re.search(r'\b(return|break|continue)\b|\?', mask(cm.group(2))):
             raise LostAnchor('rule R2 refuses a closure body with return/break/continue/?')
         st = max(m.rfind(';', 0, h.start()), m.rfind('{', 0, h.start()), m.rfind('}', 0, h.start())) + 1
